@@ -603,7 +603,7 @@ def c16(ctx):
         for sub in subs:
             for word in (False, True):
                 jn += 1
-                jobs.append((jn, p, text, sub, word, r2.choice(['rel', 'abs', 'nested', 'space'])))
+                jobs.append((jn, p, text, sub, word, r2.choice(['rel', 'abs', 'nested', 'space', 'subcmd'])))
     expect = {}
     for p in protos:
         text = dslprint.render(p)
@@ -626,7 +626,8 @@ def c16(ctx):
         args = (['compile'] if word else []) + ['-f', src]
         dirs = {}
         for l in sub:
-            name = {'rel': 'out_%s' % l, 'abs': os.path.join(wd, 'abs_%s' % l), 'nested': 'a/b c/%s/deep' % l, 'space': 'dir with space %s' % l}[shape]
+            name = {'rel': 'out_%s' % l, 'abs': os.path.join(wd, 'abs_%s' % l), 'nested': 'a/b c/%s/deep' % l, 'space': 'dir with space %s' % l,
+                    'subcmd': {0: 'format', 1: 'compile', 2: 'help'}.get(sub.index(l), 'completion_%s' % l)}[shape]
             dirs[l] = name
             args += [FLAGS[l], name]
         rc, out = run_cli(ctx, args, wd)
